@@ -265,6 +265,61 @@ def run_reject(chk, spec):
 			f"Vector({values!r}) was {fmt(s0)}; v[{spec['key']!r}] = {spec['new']!r} raised {w!r} and left the same values typed {fmt(s1)}")
 
 
+def _promoted(vals, wide):
+	d = Vector(list(vals))
+	d[0] = wide
+	return d
+
+
+EXPRS = {
+	"0 + bools": lambda: 0 + Vector([True, False]),
+	"False + bools": lambda: False + Vector([True, False, True]),
+	"0 + nullable bools": lambda: 0 + Vector([True, None, False]),
+	"sum([bools, bools])": lambda: sum([Vector([True, False]), Vector([True, True])]),
+	"bools + 0": lambda: Vector([True, False]) + 0,
+	"0 * floats": lambda: 0 * Vector([1.5, 2.5]),
+	"0 + ints": lambda: 0 + Vector([1, 2]),
+	"0.0 + ints": lambda: 0.0 + Vector([1, 2]),
+	"1 * bools": lambda: 1 * Vector([True, False]),
+	"bools ** 1": lambda: Vector([True, False]) ** 1,
+	"abs(int promoted to complex)": lambda: abs(_promoted([1, 2, 3], 3 + 4j)),
+	"-(int promoted to complex)": lambda: -_promoted([1, 2, 3], 1j),
+	"abs(int promoted to float)": lambda: abs(_promoted([1, -2, 3], -2.5)),
+	"+(int promoted to float)": lambda: +_promoted([1, 2], 0.5),
+	"abs(float promoted to complex)": lambda: abs(_promoted([1.5, 2.5], 3 + 4j)),
+	"(int promoted to float) + 1": lambda: _promoted([1, 2], 0.5) + 1,
+	"(int promoted to float) // 1": lambda: _promoted([1, 2], 0.5) // 1,
+	"(date promoted to datetime) - timedelta": lambda: _promoted([date(2020, 1, 1), date(2020, 1, 2)], datetime(2020, 1, 1, 5)) - timedelta(hours=1),
+	"Vector(iter([None, 1, 2]))": lambda: Vector(iter([None, 1, 2])),
+	"Vector(x for x in [None, 1.5])": lambda: Vector(x for x in [None, 1.5]),
+	"Vector(map(..))": lambda: Vector(map(lambda x: x, [None, None, "a"])),
+	"Vector(reversed([1, None]))": lambda: Vector(reversed([1, None])),
+	"Table({'a': generator})": lambda: Table({"a": (x for x in [None, 2, 3])}),
+	"t >> {'b': iterator}": lambda: Table({"a": [1, 2]}) >> {"b": iter([None, 2.5])},
+	"Vector(range(3))": lambda: Vector(range(3)),
+	"Vector(iter([1, None, True]))": lambda: Vector(iter([1, None, True])),
+}
+
+
+def run_expr(chk, spec):
+	"""named expressions whose result must be typed by the inference rule applied to its own values"""
+	o = call(EXPRS[spec["name"]])
+	if not o.ok:
+		chk.skip("expr-raised")
+		return
+	for label, vec in common.columns_of(spec["name"], o.value):
+		vals = list(vec._underlying)
+		exp = M.model_infer(vals)
+		if exp is None:
+			continue
+		got = sch(vec.schema())
+		chk.judged("result-typing", ("expr", spec["name"], fmt(exp)))
+		chk.observe(vec, "expr")
+		if got != exp:
+			chk.fail("operation results are typed by the inference rule applied to their values", f"result-typing/expr/{spec['name']}/exp={fmt(exp)}/got={fmt(got)}",
+				f"{spec['name']}: holds {short(vals, 160)} typed {fmt(got)}, rule says {fmt(exp)}")
+
+
 def run_result(chk, spec):
 	"""results of arithmetic / joins / aggregates / CSV are typed by the rule applied to their own values"""
 	res = common.build_result(chk, spec)
@@ -286,7 +341,7 @@ def run_result(chk, spec):
 				f"{spec!r}: column {label} holds {short(vals, 200)} typed {fmt(got)}, rule says {fmt(exp)}")
 
 
-RUNNERS = {"reject": run_reject, "dynclass": run_dynclass, "seq": run_seq, "vector": run_vector, "step": run_step, "commute": run_commute, "allnone": run_allnone, "result": run_result}
+RUNNERS = {"expr": run_expr, "reject": run_reject, "dynclass": run_dynclass, "seq": run_seq, "vector": run_vector, "step": run_step, "commute": run_commute, "allnone": run_allnone, "result": run_result}
 
 
 # ------------------------------------------------------------------ driver
@@ -341,6 +396,8 @@ def run(chk):
 			for first in (None, widerv[kind], okv[kind][0]):
 				for key in ((0, 2), [0, 1], [1, 2]):
 					chk.case("reject", {"values": okv[kind], "key": key, "new": [first, b]}, "reject")
+	for name in EXPRS:
+		chk.case("expr", {"name": name}, "result-typing-expr")
 	states = reachable_states()
 	chk.counters["automaton_states"] = len(states)
 	allv = LETTERS + EXTRA_LETTERS
